@@ -45,23 +45,7 @@ def gen_cases(ctx, rng, count):
         if r < 0.12:
             # one variable read directly (no predicate in between) by two temporal operators: what the first one does with the
             # list of the variable must not be seen by the second one; traces often shorter than the bounds
-            x = ("v", rng.choice(VARS))
-
-            def top():
-                k = rng.choice(["t1", "tb1", "tb1", "t2", "tb2"])
-                a = rng.randint(0, 3)
-                b = a + rng.randint(0, 4)
-                y = x if rng.random() < 0.7 else g.formula(1)
-                if k == "t1":
-                    return ("t1", rng.choice(["once", "hist", "ev", "alw", "prev", "next", "sprev", "snext"]), x)
-                if k == "tb1":
-                    return ("tb1", rng.choice(["once", "hist", "ev", "alw"]), a, b, x)
-                if k == "t2":
-                    return ("t2", rng.choice(["since", "until"]), x, y) if rng.random() < 0.5 else ("t2", rng.choice(["since", "until"]), y, x)
-                return ("tb2", rng.choice(["since", "until"]), a, b, x, y) if rng.random() < 0.5 else ("tb2", rng.choice(["since", "until"]), a, b, y, x)
-            f = ("b", rng.choice(["and", "or", "implies"]), top(), top())
-            if rng.random() < 0.3:
-                f = ("b", rng.choice(["and", "or", "implies"]), f, top())
+            f = F.shared_variable_formula(rng, g, VARS)
             stream = "shared-variable"
         elif r < 0.75:
             f = g.formula(d)
@@ -85,21 +69,32 @@ def gen_cases(ctx, rng, count):
         data = F.gen_trace(rng, dvars, n)
         # some variables are objects of a user-defined type read through a field (`a.value`)
         struct = sorted(v for v in vs if rng.random() < 0.5) if rng.random() < 0.15 else []
-        cases.append({"stream": stream, "f": f, "n": n, "data": data, "decl": dvars, "struct": struct})
+        # the same number of samples under another sampling period: bounds written as durations (2 s period: [2k]; 500 ms: [500k ms])
+        period = rng.choice([(2, "s"), (500, "ms")]) if rng.random() < 0.2 and any(x[0] in ("tb1", "tb2") for x in F.subformulas(f)) else None
+        cases.append({"stream": stream, "f": f, "n": n, "data": data, "decl": dvars, "struct": struct, "period": period})
     return cases
 
 
+def spec_text(case):
+    per = case.get("period")
+    if not per:
+        return "out = " + F.to_text(case["f"])
+    return "out = " + F.to_text(case["f"], bound=(lambda k: str(2 * k)) if tuple(per) == (2, "s") else (lambda k: "%dms" % (500 * k)))
+
+
 def impl_eval(case, time=None):
-    text = "out = " + F.to_text(case["f"])
-    return impl.eval_offline_discrete(text, case["decl"], case["data"], case["n"], time=time, struct=case.get("struct") or ())
+    kw = {}
+    if case.get("period"):
+        kw["sampling"] = (case["period"][0], case["period"][1], 0.1)
+    return impl.eval_offline_discrete(spec_text(case), case["decl"], case["data"], case["n"], time=time, struct=case.get("struct") or (), **kw)
 
 
 def check_case(ctx, case, model_off, model_rho, model_gen=None):
     """Returns (violation | None, diff | None)."""
     f, n, data = case["f"], case["n"], case["data"]
     out = impl_eval(case)
-    text = "out = " + F.to_text(f)
-    rep = {"struct": list(case.get("struct") or ()), "spec": text, "declare": case["decl"], "data": data, "n": n, "formula": F.to_proto(f), "monitor": "discrete offline",
+    text = spec_text(case)
+    rep = {"period": case.get("period"), "struct": list(case.get("struct") or ()), "spec": text, "declare": case["decl"], "data": data, "n": n, "formula": F.to_proto(f), "monitor": "discrete offline",
            "model_evalOff": model_off, "model_rho": model_rho, "impl": out}
     if model_rho[0] == "undef":
         expected = None
@@ -270,7 +265,7 @@ def case_of_replay(obj):
     f = F.from_proto(obj["formula"])
     data = {k: [float(x) for x in v] for k, v in obj["data"].items()}
     return {"stream": "replay", "f": f, "n": obj["n"], "data": data, "decl": obj.get("declare") or sorted(data),
-            "struct": obj.get("struct") or []}
+            "struct": obj.get("struct") or [], "period": obj.get("period")}
 
 
 def replay(ctx, obj):
